@@ -1023,6 +1023,35 @@ fn resolve_text_macro_usage<T: AsRef<Path>, U: AsRef<Path>>(
     }
 }
 
+/// Observation hooks for external verification harnesses.
+/// Compiled only with `--cfg sv_parser_verif`; absent from normal builds.
+#[cfg(sv_parser_verif)]
+pub mod verif {
+    use super::*;
+
+    pub fn split_text(s: &str) -> Vec<String> {
+        super::split_text(s)
+    }
+
+    pub fn is_predefined_text_macro(s: &str) -> bool {
+        super::is_predefined_text_macro(s)
+    }
+
+    pub const RECURSIVE_LIMIT: usize = super::RECURSIVE_LIMIT;
+
+    pub fn text_new() -> PreprocessedText {
+        PreprocessedText::new()
+    }
+
+    pub fn text_push(t: &mut PreprocessedText, s: &str, origin: Option<(PathBuf, Range)>) {
+        t.push(s, origin)
+    }
+
+    pub fn text_merge(t: &mut PreprocessedText, other: PreprocessedText) {
+        t.merge(other)
+    }
+}
+
 #[cfg(test)]
 mod tests {
     use super::*;
